@@ -35,8 +35,17 @@ impl<R: io::Read> IoReader<R> {
     pub fn fill_buffer(&mut self, len: usize) -> Result<(), io::Error> {
         let l = self.buf.len();
         if l < len {
-            self.buf.resize(len, 0);
-            self.reader.read_exact(&mut self.buf[l..])?;
+            // `len` usually comes from the wire: let the buffer grow with the bytes that
+            // actually arrive instead of allocating the declared length up front
+            let missing = (len - l) as u64;
+            let mut limited = io::Read::take(&mut self.reader, missing);
+            let n = io::Read::read_to_end(&mut limited, &mut self.buf)?;
+            if (n as u64) < missing {
+                return Err(io::Error::new(
+                    io::ErrorKind::UnexpectedEof,
+                    "failed to fill whole buffer",
+                ));
+            }
             Ok(())
         } else {
             Ok(())
